@@ -10,6 +10,7 @@ import (
 	"path/filepath"
 
 	api "k8s.io/api/core/v1"
+	networking "k8s.io/api/networking/v1"
 	"k8s.io/apimachinery/pkg/util/intstr"
 	"sigs.k8s.io/controller-runtime/pkg/client"
 
@@ -132,6 +133,23 @@ func writeHandMade(dir string) {
 		cm.Namespace, cm.Name = "ingress-controller", "tcp-services"
 		cm.Data = map[string]string{"9000": "ns1/svc1:80", "09000": "ns1/svc2:80:PROXY", "+9000": "ns1/svc3:9000::PROXY-V1", "9001": "ns1/svc1:9000"}
 		write("15-tcp-configmap-same-port", "hand made: the keys 9000, 09000 and +9000 of the tcp-services ConfigMap are one port number and name three services", append(objs, cm))
+	}
+	// (g) equal creation stamps, namespace + name colliding with different splits
+	{
+		var objs []client.Object
+		for i, ns := range []string{"a", "ab", "abc"} {
+			objs = append(objs, world.Service(ns, "svc1", world.SvcPort{Name: "http", Port: 80, TargetPort: intstr.FromInt(8080)}))
+			objs = append(objs, world.Endpoints(ns, "svc1", world.EpPort{Name: "http", Port: 8080, Ready: []string{fmt.Sprintf("10.7.%d.1", i)}}))
+			objs = append(objs, world.TLSSecret(ns, "tls-valid", "adv-"+ns+".example", 0))
+		}
+		for _, id := range [][3]string{{"a", "bc", "a.example"}, {"ab", "c", "a.example"}, {"abc", "c", "b.example"}, {"ab", "cc", "b.example"}, {"a", "bcc", "b.example"}} {
+			ing := world.Ingress(id[0], id[1], 15,
+				world.IngRule{Host: id[2], Paths: []world.IngPath{{Path: "/", Type: "Prefix", Service: "svc1", PortNum: 80}}})
+			ing.Spec.TLS = []networking.IngressTLS{{Hosts: []string{id[2]}, SecretName: "tls-valid"}}
+			ing.Annotations = ann("app-root", "/"+id[0]+"_"+id[1])
+			objs = append(objs, ing)
+		}
+		write("16-sort-key-collision", "hand made: ingresses a/bc and ab/c (and abc/c, ab/cc, a/bcc) created in the same second conflict on host, path, TLS secret and app-root: namespace/name order must decide", objs)
 	}
 	// (e) one alias requested by four hosts, one of the ingresses also declares the alias as a host
 	{
